@@ -11,7 +11,10 @@ PROPERTY = dict(
                 "data between two steps of the first. Obligations: Q_batch[t] == Q_stream[t] for every t (as real-algebra "
                 "equalities decided by the solver; no external oracle), run (iii) == run (i), and (iv) leaves the first "
                 "instance's outputs unchanged. The carried state (bias, covariance) is compared as well, so the per-step "
-                "equality is inductive. LAPACK contracts are uninterpreted functions (sound for equalities).",
+                "equality is inductive. LAPACK contracts are uninterpreted functions (sound for equalities). Further harnesses: a "
+                "caller-owned initial bias shared by Mahony instances (left alone, runs independent); OLEQ under the same "
+                "global seed twice (RNG stream contract); AngularRate with series orders 0 / 2 and 'integration'; the default "
+                "gain of a data-less Madgwick against its batch constructors.",
     bounds="N = 3 samples (2 update steps); paths <= 64 per harness",
     outside=["histories longer than 3 (per-step equality + carried state compared: inductive)",
              "OLEQ / ROLEQ random start vector: the RNG is a contract (same seed => same symbols)"],
